@@ -128,13 +128,12 @@ open FuModel.Find.Walk
     `Proofs/OutWalk.lean`.) -/
 theorem C16_whole_walk (c : Config) (t : Prim) (ht : isTestP t = true)
     (comps : List FuModel.Find.Printf.Comp) (raw : List Char)
-    (start : Bytes) (root : Node Attr) (g : GS)
-    (hH : (refCfg c).depthFirst = true → ¬ HRootLink (refCfg c) (if c.sorted then sortNode root else root)) :
+    (start : Bytes) (root : Node Attr) (g : GS) :
     let n := if c.sorted then sortNode root else root
     let r := processDir c (.and [.prim t, .prim (.printf comps raw)]) start (some root) g
     r.gs.out = g.out ++ (visitsN (refCfg c) [] 0 n).flatMap (fun v => if (sem start v t es0).1 then PrintfR.render start v comps else []) ∧
       r.quit = false := by
-  have h := processDir_out c t (.printf comps raw) ht rfl start root g hH
+  have h := processDir_out c t (.printf comps raw) ht rfl start root g
   have e : written start t (.printf comps raw) = fun v => if (sem start v t es0).1 then PrintfR.render start v comps else [] := by
     funext v; simp [written, outOf]
   rw [e] at h
